@@ -376,9 +376,38 @@ pub struct ConcGen {
     pub acked: Vec<String>,
     pub nd: usize,
     pub cleanup: bool,
+    /// clients that are inside a cleanup call
+    pub cleaning: Vec<bool>,
+    /// per client: the version it was just told was accepted (a replica stores its snapshot next)
+    pub snap_next: Vec<Option<String>>,
 }
 
 pub fn gen_line(g: &mut ConcGen, run: &Conc, rng: &mut Rng) -> String {
+    for c in 0..g.n {
+        if !run.busy(c) {
+            g.cleaning[c] = false;
+        }
+    }
+    // while somebody cleans up, the others keep adding versions and snapshots of them: cleanup must
+    // cope with what appears between its requests
+    if g.cleanup && g.cleaning.iter().any(|x| *x) && rng.below(3) > 0 {
+        let others: Vec<usize> = (0..g.n).filter(|c| !g.cleaning[*c]).collect();
+        if !others.is_empty() {
+            let c = *rng.pick(&others[..]);
+            if run.busy(c) {
+                return format!("STEP {}", c);
+            }
+            if let Some(v) = g.snap_next[c].take() {
+                g.nd += 1;
+                return format!("BEGIN {} AS {} {}", c, v, g.nd);
+            }
+            g.nd += 1;
+            return match rng.below(6) {
+                0 => format!("BEGIN {} CLEAN", c),
+                _ => format!("BEGIN {} AV {} {}", c, g.acked.last().cloned().unwrap_or("nil".into()), g.nd),
+            };
+        }
+    }
     let c = rng.below(g.n as u64) as usize;
     if run.busy(c) || rng.below(4) > 0 {
         // prefer moving somebody who is in the middle of a call
